@@ -483,7 +483,9 @@ pub fn alter(ctx: &mut Ctx) {
     }
     let n_arch = if ctx.thorough { 12 } else { 5 };
     for ai in 0..n_arch {
-        let (full, desc, _) = gen::gen_archive(&mut rng, 2, 20);
+        let (full, desc, cfg0) = gen::gen_archive(&mut rng, 2, 20);
+        let cfg_pw: Option<String> = if cfg0.enc != 0 { Some(cfg0.password.clone()) } else { None };
+        let other_orig = canon::read_other_iterators(&full, cfg_pw.as_deref());
         let ends = item_ends(&full);
         let full_answers = read_paths(&full);
         let chunks = walk(&full);
@@ -521,6 +523,20 @@ pub fn alter(ctx: &mut Ctx) {
                     if got != want {
                         ctx.violation("C05", "entries returned before the error are not the original entries wholly before the altered byte", json!({"archive":desc,"full":hex(&full),"offset":off,"mask":mask,"path":name,"got":got,"want":want,"in_length_field":in_len_field}));
                     }
+                }
+            }
+            // the other iterators over the same reader (no model request: same reader underneath, but their own filtering)
+            if off >= 8 {
+                let inp = input.clone();
+                let pw = cfg_pw.clone();
+                if let Ok(others) = crate::util::catch(move || canon::read_other_iterators(&inp, pw.as_deref())) {
+                    for ((which, got, ok), (_, orig, _)) in others.iter().zip(other_orig.iter()) {
+                        ctx.oracle_eval();
+                        if *ok { ctx.violation("C05", "altered archive read successfully", json!({"archive":desc,"full":hex(&full),"offset":off,"mask":mask,"path":which,"entries":got,"in_length_field":in_len_field})); }
+                        if !orig.starts_with(got) { ctx.violation("C05", "entries returned before the error are not the original entries wholly before the altered byte", json!({"archive":desc,"full":hex(&full),"offset":off,"mask":mask,"path":which,"got":got,"original":orig})); }
+                    }
+                } else {
+                    ctx.violation("C07", "reader panicked on an altered archive", json!({"input":hex(&input)}));
                 }
             }
             for (name, a) in answers {
